@@ -816,14 +816,15 @@ def gen_session(rng, length):
             if ev is not None:
                 apply_edit(h, ev)
                 events.append(ev)
-    return events
+    return events, {"file_kind": kind, "style": style}
 
 
 def gen_s3(item):
     rng = random.Random(item["seed"])
     what = item["what"]
     if what == "session":
-        return {"traces": [gen_session(rng, item["length"]) for _ in range(item["n"])]}
+        pairs = [gen_session(rng, item["length"]) for _ in range(item["n"])]
+        return {"traces": [p[0] for p in pairs], "meta": [p[1] for p in pairs]}
     if what == "parse":
         events = []
         for _ in range(item["n"]):
@@ -1257,7 +1258,13 @@ def run(ctx):
     titems += [{"what": "parse", "seed": ctx.rng.randrange(1 << 30), "n": 120 if quick else 400} for _ in range(2 if quick else 10)]
     titems += [{"what": "repeat", "seed": ctx.rng.randrange(1 << 30), "n": 60 if quick else 200} for _ in range(2 if quick else 6)]
     tres = helpers.run_pool(ctx, "harness.drivers.x06:gen_s3", titems, stage="S3", item_timeout=300)
-    traces = [t for r in tres for t in r.get("traces", []) if t]
+    traces, meta = [], []
+    for r in tres:
+        ms = r.get("meta") or [{}] * len(r.get("traces", []))
+        for t, m in zip(r.get("traces", []), ms):
+            if t:
+                traces.append(t)
+                meta.append(m)
     ctx.log(f"S3: {len(traces)} histories recorded")
     rres = helpers.run_pool(ctx, "harness.drivers.x06:record_repo_tests", [{}], stage="S3-repo-tests", item_timeout=600)
     repo_traces = [t for r in rres for t in r.get("traces", []) if t]
@@ -1267,8 +1274,9 @@ def run(ctx):
     if not repo_traces or not rres[0].get("parse_calls") or not rres[0].get("list_calls"):
         raise Vacuity(f"the repository's assembly tests produced no recorded calls: {ctx.cov['s3_repo_tests']}")
     all_traces = traces + repo_traces
+    meta += [{}] * len(repo_traces)
     mms, diag = _validate(ctx, all_traces, "S3")
-    _report(ctx, all_traces, mms, "S3")
+    _report(ctx, all_traces, mms, "S3", meta)
     per_kind, outcomes = {}, {"ok": 0, "Rejected": 0}
     for t in all_traces:
         for e in t:
